@@ -391,3 +391,6 @@ def run(prog, R, tier):
     r_probe(prog, R)
     r_position(prog, R)
     r_probeflag(prog, R)
+    # a server is off channel->servers before its destructor re-sends its in-flight queries (the re-send picks from that list)
+    import C19
+    C19.r_unlinkfirst(prog, R, rid="R-C09-UNLINKFIRST", fams=("ares_slist",))
